@@ -154,11 +154,15 @@ def round4(x):
 
 
 def expected_cells(pname, qsegs, rsegs):
-	"""Library distances (jaccarddist of library signatures) under parameter set pname, rounded to 4 decimals."""
-	from gambit.metric import jaccarddist
-	qs = [lib_signature(pname, s) for s in qsegs]
-	rs = [lib_signature(pname, s) for s in rsegs]
-	return [[round4(jaccarddist(a, b)) for b in rs] for a in qs]
+	"""True distances between the library signatures under parameter set pname - computed by the exact-rational model (mc.refmodel), not by the
+	library's own distance function - rounded once to float32 and then to 4 decimals."""
+	import struct
+	from mc import refmodel as R
+	qs = [lib_signature(pname, s).tolist() for s in qsegs]
+	rs = [lib_signature(pname, s).tolist() for s in rsegs]
+	def f32(a, b):
+		return struct.unpack('<f', struct.pack('<I', R.ref_jaccard_f32(a, b)))[0]
+	return [[round4(f32(a, b)) for b in rs] for a in qs]
 
 
 def parse_dmat(path):
